@@ -29,6 +29,10 @@ CLAIMS = {
          'KeyEventScanner::next total over all bytes x states (loop-free, full domain). Line-editor key handlers and history under unbounded CBMC contracts on an abstract string model (exact lengths, abstract contents): session invariant (history <= 20, history index and cursor in range), no std:: exception escapes, no container indexed out of range, (cursor, length, history index) evolve as in the reference editor; history commands !n / !-n / !! for every stoi result or exception and every history length.',
          'Trusted: printer, CBMC, std::string (size/tag), std::deque, std::stoi, stringstream models; Connection stubs. Text contents of the edited line, telnet negotiation (telnetd.cpp), split_cmdline, node tree and session teardown are not covered.',
          'CBMC function contracts on mechanically extracted C with abstract string/container models', '6 C13'),
+ 'C14': ('other',
+         'Framing: FindEndPos memory-safe for every buffer (nested loop contracts, unbounded) plus prefix determinism and equality with a reference scanner (bounded, len <= 10); HeaderStreamProto::onRecvData total for every buffer and every 32-bit length field, text handed to the JSON parser is exactly data[6..6+len), callback exactly once iff bytes are consumed, proved against the Deserializer contracts; RawStreamProto::onRecvData never claims more than given. Deadlines: TimeoutMonitor add/onTimerTick under unbounded contracts (one slot per tick, each value reported once in order, re-entrant adds survive, timer armed iff counter > 0) plus a concrete whole-ring scenario on the real bodies.',
+         'Trusted: printer, CBMC, nlohmann::json opaque (parse may succeed or throw), std::string/vector/function models, explicit-instantiation driver for TimeoutMonitor<int>. Rpc request bookkeeping (unordered_map), PacketProto, Proto::onRecvJson field extraction and encoder/decoder value round trip are not covered.',
+         'CBMC function/loop contracts on mechanically extracted C; bounded cross-checks', '6 C14'),
  'C19': ('proof',
          'Per-function CBMC contracts and loop-free/complete-unwinding lemmas on the C re-printed from the real codec sources: size functions, frames (no write beyond capacity, no read outside input), exact inverse on every value, CRC/checksum/MD5/AES equal to reference definitions written from the standards.',
          'Trusted: clang-AST->C printer, CBMC+SAT, allocator never fails, libc models; std::string/vector overloads only through their shared loops; see evidence.assumptions.',
